@@ -154,6 +154,68 @@ def _lopsided_worker(arg):
     return n, None
 
 
+def _node_worker(arg):
+    """the same rule at the level of the node: every parent-choice sequence of 5 blocks is delivered by a peer to a real node,
+    as relays (in_response_to = 0) and as answers to a request (bulk-download path); after every arrival the node's chain
+    state is compared with the reference fork choice"""
+    hists, in_response_to = arg
+    from .. import seams, simnet
+    from skepticoin.coinstate import CoinState
+    from skepticoin.networking.messages import DataMessage, DATA_BLOCK
+    ledger.setup()
+    seams.retarget_period(10080, 1209600)
+    uni = make_universe()
+    net = simnet.Net(seams.Clock(world.T0 + 10**6))
+    net.install()
+    out = []
+    n = 0
+    for hist in hists:
+        for lst in (net.escaped, net.dialling, net.connections, net.nodes):
+            lst.clear()
+        net.listeners.clear()
+        net._eph = 40000
+        cs0 = CoinState.empty().add_block_no_validation(uni.root.block)
+        node = simnet.SimNode(net, 'N', '10.0.0.1', cs0)
+        D = simnet.Remote(net, node, host='5.5.5.5')
+        D.hello(nonce=1)
+        node.tick()
+        D.received()
+        fc = refmodel.ForkChoice()
+        fc.add(uni.root)
+        dropped = False
+        for i, p in enumerate(hist):
+            nd = uni.get(p)
+            D.send(DataMessage(DATA_BLOCK, world.from_wire(nd.block)), in_response_to=in_response_to)
+            D.received()
+            n += 1
+            cs = node.cm.coinstate
+            fc.add(nd)
+            if nd.bid not in cs.block_by_hash:
+                # the node did not keep a valid arrival whose parent had arrived before it.  Acceptance as such is not what
+                # C04 states - but the head must still be the first-seen arrival of greatest total work, so from here on only
+                # the head is compared (tips and indexes are defined over stored blocks)
+                dropped = True
+            if dropped:
+                if cs.current_chain_hash != fc.head().bid:
+                    out.append(('head', "head has height %d, the first-seen arrival of greatest total work is %s (height %d); the node "
+                                "did not keep a valid block delivered %s" % (
+                                    cs.head().height, '/'.join(map(str, fc.head().path)), fc.head().height,
+                                    'as a relay' if not in_response_to else 'as the answer to a request'),
+                                hist[:i + 1], in_response_to))
+                    break
+                continue
+            d = compare(cs, fc, {m.bid: m for m in fc.order})
+            if d:
+                out.append((d[0], d[1] + (" (node level, blocks delivered %s)" % (
+                    'as relays' if not in_response_to else 'as answers to a request')), hist[:i + 1], in_response_to))
+                break
+        if net.escaped:
+            out.append(('node-exception', "node handler: %s" % (net.escaped[0],), hist, in_response_to))
+        if len(out) > 5:
+            break
+    return n, out
+
+
 def prefixes(uni, k):
     """all parent-choice sequences of length k (as histories)"""
     res = [()]
@@ -191,10 +253,21 @@ def run(ctx):
     for cnt, bad in lres:
         if bad:
             res.append(({}, [bad]))
+    nh = prefixes(uni, 5)
+    nres = ctx.pmap(_node_worker, [(nh[i::8], irt) for irt in (0, 77) for i in range(8)])
+    tot['node_level_arrivals'] = sum(r[0] for r in nres)
+    for cnt, bad in nres:
+        for b_ in bad:
+            res.append(({}, [b_]))
     for st, out in res:
         for k, v in st.items():
             tot[k] = tot.get(k, 0) + v
-        for kind, what, hist in out:
+        for item in out:
+            kind, what, hist = item[:3]
+            if len(item) > 3:
+                ctx.violation('forkchoice-' + kind, "%s after arrivals %s" % (what, ledger.hist_str(hist)),
+                              {'hist': [list(p) for p in hist], 'node_irt': item[3]})
+                continue
             if kind == 'rejected':
                 ctx.add('valid_blocks_refused')
                 if len(ctx.notes) < 3:
@@ -207,13 +280,15 @@ def run(ctx):
         'traces_validated_against_impl': tot['transitions'],
         'samples': [ledger.hist_str(prefixes(uni, 4)[7]), ledger.hist_str(prefixes(uni, 4)[23])],
         'complete_sequences': tot['complete'], 'exhaustive': True, 'lopsided_tree_arrivals': tot['lopsided_arrivals'],
+        'node_level_arrivals': tot['node_level_arrivals'],
         'lopsided_trees': {'chain_length': N, 'histories': len(lh)},
         'bounds': {'blocks_validated_path': n, 'blocks_unvalidated_path': nv},
         'ties_where_later_arrival_has_smaller_id': tot['tie_later_smaller'],
         'ties_where_later_arrival_has_larger_id': tot['tie_later_larger'], 'reorganisations': tot['reorgs'],
         'rule': "all n! parent-choice sequences (no de-duplication; prefixes shared); every arrival is one lock-step "
                 "comparison implementation vs reference fork choice; plus %d histories of one %d-block chain with a stale tip / "
-                "2-block branch left behind at height 1, 2 or 5 (arriving first, early or late), both entry points" % (len(lh), N),
+                "2-block branch left behind at height 1, 2 or 5 (arriving first, early or late), both entry points; and all 120 sequences "
+                "of 5 blocks delivered by a peer to a real node, as relays and as answers to a request" % (len(lh), N),
     })
     seams_note = "third job family: retarget period rebound to 2 so that targets differ between competing branches"
     ctx.assumptions.append(seams_note)
@@ -228,6 +303,9 @@ def replay(data, ctx):
     now = world.T0 + 10**6
     hist = [tuple(p) for p in data['hist']]
     out = []
+    if 'node_irt' in data:
+        n, bad = _node_worker(([tuple(hist)], data['node_irt']))
+        return [('forkchoice-' + b[0], b[1]) for b in bad]
     for validated, varied in ((True, False), (False, False), (True, True)):
         seams.retarget_period(2, 240) if varied else seams.retarget_period(10080, 1209600)
         uni = make_universe(varied)
